@@ -19,6 +19,10 @@ func init() {
 }
 
 func runC10(p *Prog, r *Report) {
+	if want("C10.10") {
+		// the lock holder stalled by back-pressure gets an answer when the wait fails (shared with C09.10)
+		ruleWriteBackpressure(p, r, "C10.10")
+	}
 	if want("C10.9") {
 		// a writer is acknowledged only after its group is logged (shared with C04)
 		ruleAckAfterLog(p, r, "C10.9")
